@@ -51,7 +51,7 @@ EXPECTED_PROBES = ('liar-sweep', 'mismatch-sweep', 'mut:rotate', 'index-sweep', 
 
 TRAVERSALS = ('flatten', 'flatten_with_path', 'iter', 'flatten_up_to', 'map', 'map_with_path', 'broadcast_prefix',
               'broadcast_common', 'prefix_errors', 'from_collection', 'leaves', 'structure', 'is_prefix_after', 'unflatten',
-              'walk', 'all_leaves', 'transpose_map', 'one_level')
+              'walk', 'all_leaves', 'transpose_map', 'one_level', 'unflatten_list', 'unflatten_list', 'walk_list')
 MUTATIONS = ('delete_front', 'delete_back', 'clear', 'append', 'replace', 'rotate')
 REENTRIES = ('iter_next', 'flatten', 'unflatten', 'register', 'gc', 'dictmode')
 
@@ -116,6 +116,7 @@ class RScn:
         self.tree2 = clone(self.pristine)
         self.recent = []
         self.it = None
+        self.leaves_list = None
         self.custom_children = []
         for _, _, f in self.reg.live:
             f.keep = self.custom_children
@@ -189,6 +190,25 @@ class RScn:
                     return src[s.i - 1]
 
             return spec.unflatten(It())
+        if name in ('unflatten_list', 'walk_list'):
+            # leaves given as an exact LIST; the engine calls back into Python while it consumes it (custom unflatten
+            # functions, namedtuple subclass constructors, visitors) and those callbacks see the very list object
+            leaves, spec = optree.tree_flatten(self.pristine, **kw)
+            big = list(leaves) + []
+            self.recent[:] = [big]
+            self.leaves_list = big
+            if name == 'walk_list':
+                def f_node(tp, meta, ch):
+                    self.recent[:] = [big]
+                    U._h('f_node')
+                    return ch
+
+                def f_leaf(x):
+                    self.recent[:] = [big]
+                    U._h('f_leaf')
+                    return x
+                return spec.walk(big, f_node, f_leaf)
+            return optree.tree_unflatten(spec, big)
         if name == 'walk':
             leaves, spec = optree.tree_flatten(self.pristine, **kw)
 
@@ -417,6 +437,8 @@ def run_reentry(job, io):
                 if cnt[0] != k:
                     return
                 if what == 'mut':
+                    if op in ('unflatten_list', 'walk_list') and getattr(scn, 'leaves_list', None) is not None:
+                        scn.recent[:] = [scn.leaves_list]
                     rec = scn.recent
                     if ti < 3:
                         target = rec[-1 - ti] if len(rec) > ti else None
